@@ -25,7 +25,9 @@ MANIFEST = dict(
           "A call answers a context error only if its context ended (Props/C07Rev.lean: the specification alone would also admit spurious context errors). "
           "Tied to /repo by sync-skeleton equalities regenerated on every run and by stress histories of the real queues (2-8 "
           "goroutines, random deadlines/cancellations, capacities 1,2,3,8,unbounded) accepted by an exhaustive linearizability search "
-          "against the same specification, Len()/AsSlice() samplers, exactly-once and per-producer-order accounting, a fill/drain "
+          "against the same specification, Len()/AsSlice() samplers, exactly-once and per-producer-order accounting, a high-volume "
+          "exactly-once monitor (up to 8 producers x 8 consumers, capacity 1-3, several hundred thousand operations per run: every accepted "
+          "value delivered once or still queued, no invented/zero value, per-producer FIFO at each consumer), a fill/drain "
           "capacity check after every scenario, and (model mode) a label-by-label replay of sequential scenarios on the model with "
           "white-box cursors, raw ring and free permits compared."),
     note=COMMON_NOTE + " Assumed (definitions in the model files): semaphore.Weighted as a permit counter whose Acquire may succeed or "
